@@ -106,6 +106,12 @@ claim("C15", "grammar-based property testing of return-target strings (rapid) ov
       "and both the Location header and the JSON location are resolved by an independent same-origin classifier; anything a browser would resolve to another origin is a violation.",
       TRUST + " The classifier is part of the trusted base; it is validated against ~90 hand-labelled strings for both base schemes.", engine="redirect-strings")
 
+claim("C16", "paired-run differential property testing (rapid): two worlds from one generated description, byte equality of the client-observable transcripts",
+      "For each generated description (module superset and load order, form/JSON, username/e-mail PIDs, error handler, middleware, lock counters / last-attempt age / lock deadline, 2FA on/off, rm requested or not) two identical worlds are built with the same "
+      "seeded random stream; pair (a) sends a correct vs an incorrect password to a locked, confirmed account, pair (b) a recovery request for an existing vs a non-existing account, pair (c) a failed /login and /otp/login for an unknown vs a known account "
+      "that the attempt does not lock. Oracle: status, every header, body, session and cookies after the response are byte-equal.",
+      TRUST + " Timing side channels are outside the statement.", engine="paired-differential")
+
 NOT_YET = "check not built yet in this round (claimed in DESIGN.md; will be claimed once its check is committed)"
 
 def main():
@@ -143,6 +149,7 @@ def main():
              "serves_properties": sorted(k for k, v in C.items() if v["engine"] == "world-machine")},
             {"name": "table+strings", "path": "/verif/props/c08_test.go", "kind_free_text": "exhaustive finite table crossed with rapid-generated strings", "serves_properties": ["C08"]},
             {"name": "redirect-strings", "path": "/verif/props/c15_test.go", "kind_free_text": "grammar-generated redirect targets through real flows over a loopback socket", "serves_properties": ["C15"]},
+            {"name": "paired-differential", "path": "/verif/props/c16_test.go", "kind_free_text": "two worlds from one description, transcript equality", "serves_properties": ["C16"]},
             {"name": "handler-program", "path": "/verif/props/c11_test.go", "kind_free_text": "rapid-generated handler programs against recording stores", "serves_properties": ["C11"]},
         ],
         "checks": checks,
